@@ -97,7 +97,7 @@ pub fn profile(prop: &str) -> Profile {
         "C10" => Profile {
             prop: "C10",
             w: [28, 12, 6, 34, 3, 1, 3, 1, 1, 1, 0, 0, 0, 0, 0, 3, 0, 4],
-            kind_w: [35, 30, 30, 2, 1, 2],
+            kind_w: [35, 30, 30, 2, 8, 2],
             size_w: [30, 65, 5, 0, 0],
             obs_level: 1,
             ..base
@@ -126,7 +126,7 @@ pub fn profile(prop: &str) -> Profile {
             mode: Mode::Crash,
             min_ops: 5,
             max_ops: 14,
-            w: [34, 12, 6, 12, 8, 5, 0, 2, 3, 1, 0, 1, 0, 0, 0, 0, 8, 0],
+            w: [34, 12, 6, 12, 8, 5, 0, 2, 3, 1, 0, 1, 0, 0, 0, 4, 8, 0],
             size_w: [10, 40, 30, 15, 5],
             obs_level: 1,
             blocker_pct: 20,
@@ -448,6 +448,15 @@ impl Gen {
             (Some(h), _) => h.saturating_add(self.rng.range(1, 3)),
             (None, _) => self.time(),
         };
+        if self.rng.chance(1, 5) {
+            // a version of exactly the same encoded size as the holder (same tags, same content
+            // length): only id, time and content bytes differ
+            if let Some(h) = self.model.holders(&a).first().map(|h| (*h).clone()) {
+                let seed = self.rng.next();
+                let content: Vec<u8> = (0..h.content.len()).map(|i| (seed.wrapping_mul(i as u64 + 7) >> 9) as u8).collect();
+                return EvSpec { id: self.rng.bytes32(), pk: h.pk, kind: h.kind, at, tags: h.tags.clone(), content };
+            }
+        }
         let mut tags = vec![];
         if is_param(a.kind) {
             tags.push(vec!["d".to_string(), String::from_utf8(a.d.clone()).unwrap_or_default()]);
@@ -604,6 +613,16 @@ impl Gen {
             }
         }
         self.rng.shuffle(&mut tags);
+        if self.rng.chance(1, 8) {
+            // a one-element tag (e.g. the NIP-70 marker) somewhere in the list, often first
+            let marker = vec![self.rng.pick(&["-", "e", "a", "t"]).to_string()];
+            let pos = if self.rng.chance(2, 3) { 0 } else { self.rng.usize(tags.len() + 1) };
+            tags.insert(pos, marker);
+        }
+        if self.rng.chance(1, 30) {
+            // a request dated 0 (covers only events dated 0; the marker must still be written)
+            return EvSpec { id: self.rng.bytes32(), pk, kind: 5, at: 0, tags, content: vec![] };
+        }
         // the request's own time: before / equal / after what it refers to
         let at = if let Some(r) = ref_times.first().copied() {
             match self.rng.weighted(&[25, 25, 50]) {
@@ -758,7 +777,7 @@ impl Gen {
         q
     }
 
-    fn apply_store_to_gen_model(&mut self, e: &EvSpec) {
+    pub fn apply_store_to_gen_model(&mut self, e: &EvSpec) {
         self.model.note_event(e);
         let ex = self.model.store_expect(e);
         if !ex.must_fail() {
@@ -1035,7 +1054,58 @@ impl Gen {
     }
 }
 
+/// A bulk history: many hundreds of small events of one key (and gift-wraps naming it), then
+/// queries / a vanish over them. Observed sparsely (cfg.obs_level 9: only after removals,
+/// vanishes, restarts and at the end), so that it stays cheap.
+fn bulk_trace(prop: &str, seed: u64) -> Trace {
+    let mut g = Gen::new(seed, profile(prop));
+    let pk = g.authors[0];
+    let other = g.authors[1];
+    let n_own = g.rng.range(505, 640) as usize;
+    let n_wraps = if g.rng.chance(1, 2) { g.rng.range(505, 560) as usize } else { g.rng.range(0, 30) as usize };
+    let mut ops: Vec<Op> = vec![Op::Clock(Some(g.clock))];
+    for i in 0..n_own {
+        let e = EvSpec { id: g.rng.bytes32(), pk, kind: 1, at: T0 + (i as u64 % 50), tags: vec![], content: vec![(i & 0xff) as u8] };
+        g.apply_store_to_gen_model(&e);
+        ops.push(Op::Store(e));
+    }
+    for i in 0..n_wraps {
+        let e = EvSpec { id: g.rng.bytes32(), pk: other, kind: 1059, at: T0 + (i as u64 % 50), tags: vec![vec!["p".into(), hex(&pk)]], content: vec![] };
+        g.apply_store_to_gen_model(&e);
+        ops.push(Op::Store(e));
+    }
+    for _ in 0..g.rng.range(3, 8) {
+        let e = g.new_event();
+        g.apply_store_to_gen_model(&e);
+        ops.push(Op::Store(e));
+    }
+    // unlimited and limited queries over the big author, then the vanish
+    let base = QuerySpec::all_allowed();
+    ops.push(Op::Query(QuerySpec { authors: vec![pk], ..base.clone() }));
+    ops.push(Op::Query(QuerySpec { authors: vec![pk], kinds: vec![1], ..base.clone() }));
+    ops.push(Op::Query(QuerySpec { kinds: vec![1059], tags: vec![('p', vec![hex(&pk)])], ..base.clone() }));
+    ops.push(Op::Query(QuerySpec { limit: Some(g.rng.range(498, 520) as u32), ..base.clone() }));
+    ops.push(Op::Query(base.clone()));
+    if g.rng.chance(2, 3) {
+        let _ = g.model.apply_vanish(&pk);
+        ops.push(Op::Vanish(pk));
+    } else {
+        ops.push(Op::Reopen(ReopenKind::Close));
+    }
+    ops.push(Op::Query(base));
+    Trace {
+        cfg: Cfg { prop: prop.to_string(), mode: Mode::Seq, seed, blocker: false, extra_tables: 0, obs_level: 9, drain: false },
+        ops,
+        threads: vec![],
+        schedule: vec![],
+        expect: None,
+    }
+}
+
 pub fn generate(prop: &str, seed: u64) -> Trace {
+    if matches!(prop, "C18" | "C05" | "C17") && seed % 64 == 0 {
+        return bulk_trace(prop, seed);
+    }
     let mut p = profile(prop);
     if thorough() {
         p.max_ops = p.max_ops * 2;
